@@ -208,6 +208,7 @@ pub fn shrink_case(case: &Case, flags: Flags) -> Case {
         |c: &mut Case| c.cfg.short_writes = false,
         |c: &mut Case| c.cfg.use_new = false,
         |c: &mut Case| c.cfg.arrow_params = false,
+        |c: &mut Case| c.cfg.other_set = false,
         |c: &mut Case| c.cfg.enter_style = 0,
         |c: &mut Case| c.cfg.scripts.clear(),
         |c: &mut Case| c.cfg.prompt = 0,
